@@ -41,7 +41,7 @@ MODULE = {
                 "forall('m', implies(0 <= m and m < len(g_yielded), exists('st', %s and g_yielded[m] == ite(canonicalize, uf('canonicalize_url', 'Str', st, strip_fragment), st), %s)), g_yielded[m])"
                 % (ISURL % "st", ISURL % "st"),
             ]}},
-            "ghost_before": {"if not is_url(url, require_protocol=True, tld_aware=True, allow_spaces_in_path=True, only_http_https=True):": ["g_pre = url"]},
+            "ghost_before": {"if not is_url(url, ...):": ["g_pre = url"]},
             "asserts": {"yield url": [ISURL % "g_pre", "url == ite(canonicalize, uf('canonicalize_url', 'Str', g_pre, strip_fragment), g_pre)"]},
         },
     },
